@@ -23,6 +23,9 @@ FUNCS = [
     ("t**2*exp(-t/tau)", 3), ("exp(-t) + exp(-2*t) + exp(-3*t)", 3), ("t**2", 3), ("1 + exp(-t)*cos(t)", 3), ("t*exp(-t) + exp(-2*t)", 3),
     ("t**3*exp(-t)", 4), ("t**3", 4), ("exp(-t) + exp(-2*t) + exp(-3*t) + exp(-4*t)", 4), ("sin(t) + sin(2*t)", 4),
     ("t**4*exp(-t)", 5), ("t**4", 5), ("exp(-t) + exp(-2*t) + exp(-3*t) + exp(-4*t) + exp(-5*t)", 5),
+    # the sampled linear system is satisfied at the integer sample points although the identity does not hold
+    ("(t**2 + t + 2)*exp(-t)", 3), ("t**4 - 6*t**3 + 12*t**2 + t + 1", 5), ("t**6/120 - t**5/10 + 11*t**4/24 - t**3 + t + 1", 7),
+    ("(t**2 + t + 2)*exp(-t) + exp(-3*t)", 4),
     ("exp(-t**2)", None), ("1/(1 + t)", None), ("log(1 + t)", None), ("tanh(t)", None),
     ("t - t", "nozero"), ("0*exp(-t)", "nozero"),
 ]
